@@ -64,8 +64,12 @@ def run_mutant(pid, name, fname, old, new, tier, patch=None, facets=None):
         cmd = [sys.executable, "-m", "harness.run", pid, "--tier", tier]
         for f in facets or ():
             cmd += ["--facet", f]
-        res = subprocess.run(cmd, cwd=ROOT, env=env, capture_output=True,
-                             text=True)
+        try:
+            res = subprocess.run(cmd, cwd=ROOT, env=env, capture_output=True,
+                                 text=True, timeout=1500)
+        except subprocess.TimeoutExpired:
+            subprocess.run(["pkill", "-9", "-f", "harness.run " + pid])
+            return "TIMEOUT (1500 s)"
         lines = [l for l in res.stdout.splitlines()
                  if l.startswith(("VIOLATION", "  facet", "HARNESS"))]
         return "exit={} {}".format(res.returncode, " | ".join(lines[:4]))
